@@ -12,3 +12,6 @@ func ResetPools()                        { validate.VerifResetPools() }
 func SetRedeemHook(h func(obj any) bool) { validate.VerifSetRedeemHook(h) }
 func ResetRegexpCache()                  { validate.VerifResetRegexpCache() }
 func RegexpCache() map[string]string     { return validate.VerifRegexpCache() }
+
+// BorrowResult takes a Result from the library's pool, as the validators do for intermediate results.
+func BorrowResult() *validate.Result { return validate.VerifBorrowResult() }
